@@ -227,6 +227,22 @@ pub fn c14(thorough: bool, seed: u64) -> CheckOutput {
         |a, b| a.merge(b),
     );
     acc.merge(rec_acc);
+    // deep-state block: thousands of nested groups / aliases / memo entries alive at drop time
+    let deep = crate::mon_trace::deep_block(
+        if thorough { 1200 } else { 120 },
+        seed,
+        verif::Config {
+            snapshots: false,
+            choices: false,
+            step_limit: 0,
+        },
+        &[4200],
+        &|cfg: &Config, _res: &CaseResult, acc: &mut Acc| {
+            check_c14(cfg, Life::Drop, acc);
+            acc.count("deep_state_cases", 1);
+        },
+    );
+    acc.merge(deep);
     // long histories (W7): one generator reused with reset(), as the Python wrapper does; then dropped
     let n_hist = if thorough { 64 } else { 16 };
     let gens_per = if thorough { 20_000 } else { 4_000 };
@@ -774,6 +790,21 @@ pub fn c09(thorough: bool, seed: u64) -> CheckOutput {
         |a, b| a.merge(b),
     );
     acc.merge(m);
+    // deep-state block: one opcode greedily for thousands of steps (thousands of pending MARKs,
+    // stack entries, memo entries when the collapse tail starts)
+    let sizes: Vec<usize> = if thorough { vec![4200, 11_000, 20_500] } else { vec![4200, 20_500] };
+    let deep = crate::mon_trace::deep_block(
+        if thorough { 1500 } else { 150 },
+        seed,
+        verif::Config {
+            snapshots: false,
+            choices: false,
+            step_limit: 0,
+        },
+        &sizes,
+        &|cfg: &Config, _res: &CaseResult, acc: &mut Acc| check_c09(cfg, acc),
+    );
+    acc.merge(deep);
     // child-process cases: large pickles (W6), deep nesting on a 2 MiB thread, long inputs
     let exe = std::env::current_exe().expect("current_exe");
     let mut child_cases: Vec<(String, Config, bool)> = Vec::new();
